@@ -103,6 +103,42 @@ type c13Inst struct {
 	fast network.Solver
 }
 
+// c13Direct: when set, the fast solver is built through the public constructor
+// NewFastModularNetworkSolver with the bias links as ordinary connections from the bias neuron
+// (index 0) instead of folded into the bias list - the form a hand-built or loaded model may have.
+var c13Direct bool
+
+func c13DirectSolver(sp *GenomeSpec) network.Solver {
+	// neuron order of the fast solver: bias, input, outputs, hidden
+	idx := map[int]int{}
+	var acts []neatmath.NodeActivationType
+	add := func(role network.NodeNeuronType) {
+		for _, n := range sp.Nodes {
+			if n.Role == role {
+				idx[n.ID] = len(acts)
+				acts = append(acts, n.Act)
+			}
+		}
+	}
+	add(network.BiasNeuron)
+	add(network.InputNeuron)
+	add(network.OutputNeuron)
+	add(network.HiddenNeuron)
+	var conns []*network.FastNetworkLink
+	for _, g := range sp.Genes {
+		if g.En {
+			conns = append(conns, &network.FastNetworkLink{SourceIndex: idx[g.In], TargetIndex: idx[g.Out], Weight: g.W})
+		}
+	}
+	nout := 0
+	for _, n := range sp.Nodes {
+		if n.Role == network.OutputNeuron {
+			nout++
+		}
+	}
+	return network.NewFastModularNetworkSolver(1, 1, nout, len(acts), acts, conns, make([]float64, len(acts)), nil)
+}
+
 func c13Build(sp *GenomeSpec, fast bool) (*c13Inst, error) {
 	net, err := sp.Build().Genesis(1)
 	if err != nil {
@@ -110,7 +146,9 @@ func c13Build(sp *GenomeSpec, fast bool) (*c13Inst, error) {
 	}
 	in := &c13Inst{net: net}
 	if fast {
-		if in.fast, err = net.FastNetworkSolver(); err != nil {
+		if c13Direct {
+			in.fast = c13DirectSolver(sp)
+		} else if in.fast, err = net.FastNetworkSolver(); err != nil {
 			return nil, err
 		}
 	}
@@ -210,6 +248,7 @@ type c13Case struct {
 	Rec    bool   `json:"rec_flags"`
 	Mixed  bool   `json:"mixed_acts"`
 	Fast   bool   `json:"fast"`
+	Direct bool   `json:"direct_fast_solver"`
 	H      []int  `json:"history"`
 	S      []int  `json:"continuation"`
 }
@@ -239,13 +278,16 @@ func c13Eval(c *Ctx, sh c13Shape, g uint64, rec, mixed, fast bool, hs, ss [][]in
 			got, _ := c13Run(sp, fast, h, s)
 			n++
 			if got != fresh[i] {
-				cs := c13Case{Hidden: sh.Hidden, Graph: g, Rec: rec, Mixed: mixed, Fast: fast, H: h, S: s}
+				cs := c13Case{Hidden: sh.Hidden, Graph: g, Rec: rec, Mixed: mixed, Fast: fast, Direct: c13Direct, H: h, S: s}
 				params := map[string]interface{}{}
 				js, _ := jsonMarshal(cs)
 				_ = jsonUnmarshal(js, &params)
 				kind := "Network"
 				if fast {
 					kind = "FastSolver"
+					if c13Direct {
+						kind = "FastSolver(constructed directly, bias links as connections)"
+					}
 				}
 				msg := fmt.Sprintf("%s %s: after history %s and Flush the continuation %s observes %q, a fresh instance observes %q", kind, sp.Short(), opsString(h), opsString(s), got, fresh[i])
 				c.ViolateOrd("C13/"+kind+"/flushed-differs-from-fresh", int64(len(sp.Genes))<<32|int64(len(h)+len(s))<<24|int64(g&0xffffff), msg, &Replay{Scenario: "net", Params: params, Clause: msg})
@@ -287,9 +329,9 @@ func runC13(c *Ctx) {
 		// hand-picked two-hidden recurrent networks (bit layout: neuron i->j at i*3+j, bias->j at 9+j, input->j at 12+j;
 		// neurons: 0 output(3), 1 hidden(4), 2 hidden(5))
 		picks := []uint64{
-			1<<(2*3+1) | 1<<(1*3+0) | 1<<(12+2),               // input->h5->h4->out (feeding neuron later in the node list)
-			1<<(2*3+1) | 1<<(1*3+0) | 1<<(12+2) | 1<<(1*3+2),   // + h4->h5 cycle
-			1<<(1*3+0) | 1<<(12+1) | 1<<(1*3+1) | 1<<(9+0),     // self-loop on h4, bias to output
+			1<<(2*3+1) | 1<<(1*3+0) | 1<<(12+2),                          // input->h5->h4->out (feeding neuron later in the node list)
+			1<<(2*3+1) | 1<<(1*3+0) | 1<<(12+2) | 1<<(1*3+2),             // + h4->h5 cycle
+			1<<(1*3+0) | 1<<(12+1) | 1<<(1*3+1) | 1<<(9+0),               // self-loop on h4, bias to output
 			1<<(1*3+0) | 1<<(2*3+0) | 1<<(12+1) | 1<<(12+2) | 1<<(0*3+1), // out->h4 feedback
 			1<<(2*3+1) | 1<<(1*3+0) | 1<<(12+2) | 1<<(0*3+0) | 1<<(9+1),  // output self-loop
 			1<<(1*3+2) | 1<<(2*3+0) | 1<<(12+1) | 1<<(2*3+2) | 1<<(9+2),
@@ -313,7 +355,9 @@ func runC13(c *Ctx) {
 			}
 		}
 		for _, g := range graphs {
-			for _, fast := range []bool{false, true} {
+			for _, kind := range []int{0, 1, 2} {
+				fast := kind > 0
+				c13Direct = kind == 2 // (the vrand-free E4 workers are single-threaded per process: a package variable is safe here)
 				alpha := c13Alphabet(fast)
 				h, sq := hl, sl
 				if j.picks == nil && j.sh.Hidden == 2 {
@@ -325,7 +369,7 @@ func runC13(c *Ctx) {
 					pairs += n
 					if n > 0 {
 						nets++
-						c.Distinct(uint64(j.sh.Hidden)<<60 | g<<2 | uint64(b2i(fast))<<1 | uint64(b2i(variant[0])))
+						c.Distinct(uint64(j.sh.Hidden)<<60 | g<<3 | uint64(kind)<<1 | uint64(b2i(variant[0])))
 					}
 				}
 			}
@@ -339,7 +383,7 @@ func runC13(c *Ctx) {
 	})
 	c.States = int64(len(c.distinct))
 	c.Sample(map[string]interface{}{"network": c13Spec(c13Shape{1}, 0b10_01_0110, true, false).Short(), "history": opsString([]int{opLoad1, opRecursive}), "continuation": opsString([]int{opLoad2, opFwd1, opFwd2})})
-	c.Rule = fmt.Sprintf("networks: ALL digraphs over {bias, input, output, hidden} (4 neuron->neuron edges incl. self-loops and output->hidden, 4 sensor->neuron edges; the output precedes the hidden node in the node list)%s, each in two variants (plain; cycle-closing edges flagged recurrent + mixed activation types); solvers: standard Network and fast solver built from the same genome; alphabet: Load(0.5), Load(-1.5), Forward(1), Forward(2), Recursive, Relax(3,1e-9) [fast], Depth(0), Depth(1) [network]; every history h of length 1..%d and every continuation s of length 1..%d: outputs, boolean results and errors of every step of s after (h; Flush) must equal those on a fresh instance bit for bit. states = distinct (network, solver, variant), transitions = (h,s) pairs compared",
+	c.Rule = fmt.Sprintf("networks: ALL digraphs over {bias, input, output, hidden} (4 neuron->neuron edges incl. self-loops and output->hidden, 4 sensor->neuron edges; the output precedes the hidden node in the node list)%s, each in two variants (plain; cycle-closing edges flagged recurrent + mixed activation types); solvers: standard Network, the fast solver derived from it, and a fast solver constructed directly through NewFastModularNetworkSolver with the bias links as ordinary connections; alphabet: Load(0.5), Load(-1.5), Forward(1), Forward(2), Recursive, Relax(3,1e-9) [fast], Depth(0), Depth(1) [network]; every history h of length 1..%d and every continuation s of length 1..%d: outputs, boolean results and errors of every step of s after (h; Flush) must equal those on a fresh instance bit for bit. states = distinct (network, solver, variant), transitions = (h,s) pairs compared",
 		map[bool]string{true: " plus six hand-picked two-hidden recurrent networks", false: " and ALL digraphs over {bias, input, output, 2 hidden} (9 + 6 edges; histories and continuations of length <= 2 for these)"}[c.Quick()], hl, sl)
 	c.Assume("observations are the outputs, results and errors after every operation (node-internal state is observed only through them)")
 }
@@ -356,6 +400,7 @@ func replayC13(c *Ctx, rp *Replay) (bool, string) {
 	js, _ := jsonMarshal(rp.Params)
 	_ = jsonUnmarshal(js, &cs)
 	sp := c13Spec(c13Shape{cs.Hidden}, cs.Graph, cs.Rec, cs.Mixed)
+	c13Direct = cs.Direct
 	fresh, _ := c13Run(sp, cs.Fast, nil, cs.S)
 	got, _ := c13Run(sp, cs.Fast, cs.H, cs.S)
 	if got != fresh {
